@@ -221,6 +221,9 @@ func (w *World) globalCell(x *Exec, g *ssa.Global) *Cell {
 
 // findFunc locates an SSA function by contract key in a package.
 func (w *World) findFunc(rel, key string) *ssa.Function {
+	// "F!impl": a second contract for F that is checked against F's body only
+	// (call sites use the plain contract of F, an abstraction of it)
+	key = strings.TrimSuffix(key, "!impl")
 	p := w.pkgs[rel]
 	if p == nil {
 		return nil
